@@ -579,4 +579,20 @@ pub fn run(ctx: &mut Ctx) {
     }
     reinsertion(ctx, &base);
     settings_with_tags(ctx, &base);
+    // a value with tags that the compiler inlines — the result of a meta block, a constant — is the value with its tags:
+    // `tags`, `get-tag` and printing answer as for the same value computed where it is used
+    for (inner, probe) in [("255 ^hex", "tags"), ("255 ^hex", "dup print tags"), ("\"s\" 1 \"k\" insert-tag", "\"k\" get-tag"), ("nil 2 \"n\" insert-tag", "tags"), ("7 1 \"a\" insert-tag 2 \"b\" insert-tag", "\"a\" get-tag"),
+        ("0 ^bin", "dup print tags"), ("-1 3 \"m\" insert-tag", "tags")] {
+        let run1 = |src: String| -> String {
+            let mut xs = Xstate::boot().unwrap();
+            xs.intercept_stdout(true);
+            let r = crate::guarded(|| xs.eval(&src));
+            format!("{:?} stack=[{}] out={:?}", r.map(|r| r.map_err(|e| canon::err(&e))), canon::stack(&xs).iter().map(canon::cell).collect::<Vec<_>>().join(" "), xs.stdout().cloned().unwrap_or_default())
+        };
+        let plain = run1(format!("{} {}", inner, probe));
+        let block = run1(format!("#( {} #) {}", inner, probe));
+        let konst = run1(format!("#( {} const kt #) kt {}", inner, probe));
+        ctx.check(plain == block && plain == konst, || format!("C13 `{}` then `{}`: written out, as a meta block, as a constant", inner, probe), || plain.clone(), || format!("block: {} // constant: {}", block, konst));
+        ctx.tag("inlined-values-keep-their-tags");
+    }
 }
